@@ -34,6 +34,10 @@ TARGETS = [
     ("UserHeader", "modules/pel/peltool/user_header.py", "UserHeader", "toJSON"),
     ("ExtendedUserHeader", "modules/pel/peltool/extend_user_header.py", "ExtendedUserHeader", "toJSON"),
     ("FailingMTMS", "modules/pel/peltool/failing_mtms.py", "FailingMTMS", "toJSON"),
+    ("ImpactedPartition", "modules/pel/peltool/imp_partition.py", "ImpactedPartition", "toJSON"),
+    ("UserData", "modules/pel/peltool/user_data.py", "UserData", "__init__"),
+    ("ExtUserData", "modules/pel/peltool/ext_user_data.py", "ExtUserData", "__init__"),
+    ("Default", "modules/pel/peltool/default.py", "Default", "__init__"),
 ]
 
 
@@ -59,14 +63,30 @@ def read_call(e):
         kind = "int" if e.func.attr == "get_int" else "mem"
         if isinstance(a, ast.Constant) and isinstance(a.value, int) and not isinstance(a.value, bool) and 0 < a.value <= 65535:
             return (kind, a.value, "")
-        if kind == "mem" and isinstance(a, ast.Attribute) and isinstance(a.value, ast.Name) and a.value.id == "self":
-            return ("var", 0, a.attr)
-        raise Unsupported("width of a read is neither a constant nor an attribute, line %d" % e.lineno)
+        if kind == "mem" and not uses_stream(a) and not any(isinstance(n, ast.Call) for n in ast.walk(a)):
+            return ("var", 0, resolve_width(a))
+        raise Unsupported("width of a read is neither a constant nor a simple expression, line %d" % e.lineno)
     if isinstance(e, ast.Call) and isinstance(e.func, ast.Name) and e.func.id == "getTimestamp":
         if len(e.args) != 1 or not is_stream(e.args[0]) or e.keywords:
             raise Unsupported("unexpected arguments of getTimestamp at line %d" % e.lineno)
         return ("ts", 8, "")
     return None
+
+
+LOCALS = {}          # name / self.attr -> expression text of its last plain assignment in the function being walked
+
+
+def resolve_width(a):
+    """the width expression with local names replaced by what was assigned to them (sectionLen - 8 for dataLength ...)"""
+    class R(ast.NodeTransformer):
+        def visit_Name(self, n):
+            return ast.parse("(" + LOCALS[n.id] + ")", mode="eval").body if n.id in LOCALS else n
+
+        def visit_Attribute(self, n):
+            key = ast.unparse(n)
+            return ast.parse("(" + LOCALS[key] + ")", mode="eval").body if key in LOCALS else n
+    import copy
+    return ast.unparse(R().visit(copy.deepcopy(a)))
 
 
 def uses_stream(node):
@@ -127,7 +147,25 @@ def block(stmts, reads, shows):
                     raise Unsupported("a display expression reads the stream at line %d" % st.lineno)
                 shows.append((tgt.slice.value, ast.unparse(st.value)))
                 continue
-            reads.extend(reads_of_assign(st))
+            if isinstance(st.value, ast.Name) and st.value.id == "stream" and ast.unparse(st.targets[0]) == "self.stream":
+                continue          # the constructor keeps the stream
+            got = reads_of_assign(st)
+            reads.extend(got)
+            if not got and len(st.targets) == 1 and not any(isinstance(n, ast.Call) for n in ast.walk(st.value)):
+                LOCALS[ast.unparse(st.targets[0])] = ast.unparse(st.value)
+            continue
+        if isinstance(st, ast.For) and uses_stream(st):
+            # for _ in range(<count>): <one statement with one read>
+            it = st.iter
+            if not (isinstance(it, ast.Call) and isinstance(it.func, ast.Name) and it.func.id == "range" and len(it.args) == 1
+                    and not uses_stream(it.args[0]) and not st.orelse and len(st.body) == 1):
+                raise Unsupported("a loop that reads the stream is outside the fragment at line %d" % st.lineno)
+            body = st.body[0]
+            calls = [n for n in ast.walk(body) if read_call(n) is not None]
+            if len(calls) != 1:
+                raise Unsupported("a loop body with other than one read at line %d" % st.lineno)
+            kind, width, wattr = read_call(calls[0])
+            reads.append((ast.unparse(body).replace(ast.unparse(calls[0]), "_"), "loop:" + kind, width, "count=" + ast.unparse(it.args[0])))
             continue
         if isinstance(st, ast.If):
             inner_then, inner_else = [], []
@@ -177,6 +215,7 @@ def main():
             tree = ast.parse(open(os.path.join(ROOT, path)).read())
             f = find(tree, cls, fn)
             reads, shows = [], []
+            LOCALS.clear()
             block(f.body, reads, shows)
             defs.append("Definition ok_%s : bool := true." % label)
             defs.append("Definition rd_%s : list ((list N) * (list N) * nat * (list N)) :=\n  [%s]." % (
